@@ -140,6 +140,143 @@ fn check_ladder(shape: u64, len: usize) -> Result<(), String> {
     Ok(())
 }
 
+
+/// Run-structured operands: an increasing sequence cut into consecutive blocks, each block owned by
+/// the left operand, the right operand or both. Merges that look at *run lengths* (galloping,
+/// binary-search fast paths, block copies) depend on how the length of one run relates to the
+/// next - equal, one more or less, double, double plus one - and on what follows the run (a shared
+/// value, the end of an operand). `desc` = list of (owner, length): owner 0 = left, 1 = right, 2 = both.
+fn run_operands(desc: &[(u8, usize)]) -> (Vec<i64>, Vec<i64>) {
+    let (mut x, mut y) = (Vec::new(), Vec::new());
+    let mut v = -3i64;
+    for (owner, len) in desc {
+        for _ in 0..*len {
+            v += 1;
+            if *owner != 1 {
+                x.push(v);
+            }
+            if *owner != 0 {
+                y.push(v);
+            }
+        }
+    }
+    (x, y)
+}
+
+fn check_runs(desc: &[(u8, usize)]) -> Result<(), String> {
+    let (x, y) = run_operands(desc);
+    let sx: BTreeSet<i64> = x.iter().copied().collect();
+    let sy: BTreeSet<i64> = y.iter().copied().collect();
+    let eu: Vec<i64> = sx.union(&sy).copied().collect();
+    let ux: UniqueSortedVec<i64> = x.clone().into();
+    let uy: UniqueSortedVec<i64> = y.clone().into();
+    for (what, un) in [("union(x, y)", ux.clone().union(uy.clone())), ("union(y, x)", uy.clone().union(ux.clone()))] {
+        if un.as_slice() != eu.as_slice() {
+            let i = un.as_slice().iter().zip(eu.iter()).position(|(a, b)| a != b).unwrap_or(un.as_slice().len().min(eu.len()));
+            return Err(format!(
+                "{what} of run-structured operands {desc:?} (owner 0 = left, 1 = right, 2 = both; consecutive integers from -2) has {} elements instead of {}; first difference at index {i}: {:?} vs {:?}",
+                un.as_slice().len(),
+                eu.len(),
+                un.as_slice().get(i.saturating_sub(1)..(i + 2).min(un.as_slice().len())),
+                eu.get(i.saturating_sub(1)..(i + 2).min(eu.len()))
+            ));
+        }
+    }
+    Ok(())
+}
+
+fn run_family(args: &Args, rep: &mut Report) {
+    let reduced = args.extra.iter().any(|e| e == "norandom");
+    let mut idx = 0u64;
+    let mut try_desc = |desc: Vec<(u8, usize)>, sharded: bool, rep: &mut Report| {
+        if sharded {
+            idx += 1;
+            if (idx - 1) % args.of.max(1) != args.worker {
+                return;
+            }
+        }
+        if rep.full() {
+            return;
+        }
+        rep.evaluations += 1;
+        rep.count("run_structured_pairs");
+        rep.begin(&format!("run-structured operands {desc:?}"));
+        match guarded(|| check_runs(&desc)) {
+            Ok(Ok(())) => {}
+            Ok(Err(msg)) => rep.violation("set_semantics", msg, json!({"runs": desc.iter().map(|(o, l)| json!([o, l])).collect::<Vec<_>>()}), None),
+            Err(p) => rep.violation("panic", format!("panic on run-structured operands {desc:?}: {p}"), json!({"runs": desc.iter().map(|(o, l)| json!([o, l])).collect::<Vec<_>>()}), None),
+        }
+    };
+    // deterministic grid: [lead] run r of one operand, run r2 of the other (r2 related to r), then
+    // what follows (shared value / one more of either / nothing), then an optional tail
+    let mut rs: Vec<usize> = (1..=(if reduced { 6 } else { 72 })).collect();
+    if !reduced {
+        for k in 7..=10 {
+            rs.extend([(1usize << k) - 1, 1 << k, (1 << k) + 1]);
+        }
+    }
+    for &r in &rs {
+        let mut rel: Vec<usize> = vec![r.saturating_sub(1), r, r + 1, 2 * r - 1, 2 * r, 2 * r + 1, 4 * r + 3, r / 2];
+        rel.retain(|v| *v > 0);
+        rel.dedup();
+        for &r2 in &rel {
+            for first in [0u8, 1] {
+                for follow in [None, Some(2u8), Some(first), Some(1 - first)] {
+                    for lead in [None, Some(2u8)] {
+                        for tail in [0usize, 1, r] {
+                            let mut d = Vec::new();
+                            if let Some(o) = lead {
+                                d.push((o, 1));
+                            }
+                            d.push((first, r));
+                            d.push((1 - first, r2));
+                            if let Some(o) = follow {
+                                d.push((o, 1));
+                            }
+                            if tail > 0 {
+                                d.push((first, tail));
+                            }
+                            try_desc(d, true, rep);
+                        }
+                    }
+                }
+            }
+        }
+    }
+    // random chains of runs whose lengths relate to the previous run's
+    let n = if reduced { 0 } else { args.cases(6_000, 200_000) };
+    let ladder: Vec<usize> = vec![1, 2, 3, 4, 7, 8, 9, 15, 16, 17, 31, 32, 33, 63, 64, 65, 100, 127, 128, 129, 255, 256, 257];
+    for k in 0..n {
+        let mut r = Rng::new(args.seed ^ 0x2b5, args.worker, k);
+        let blocks = 2 + r.below(9) as usize;
+        let mut d: Vec<(u8, usize)> = Vec::new();
+        let mut prev = *r.pick(&ladder);
+        for _ in 0..blocks {
+            let len = match r.below(10) {
+                0..=2 => prev,
+                3 => prev + 1,
+                4 => prev.saturating_sub(1).max(1),
+                5 => 2 * prev,
+                6 => 2 * prev + 1,
+                7 => 1,
+                _ => *r.pick(&ladder),
+            }
+            .min(600);
+            let owner = match (d.last(), r.below(10)) {
+                (Some((o, _)), 0..=5) if *o != 2 => 1 - *o,
+                (_, 6..=7) => 2,
+                _ => r.below(2) as u8,
+            };
+            d.push((owner, if owner == 2 && r.chance(70) { 1 } else { len }));
+            if owner != 2 {
+                prev = len;
+            }
+        }
+        rep.nontrivial(crate::rng::hash64(&format!("{d:?}")));
+        try_desc(d, false, rep);
+    }
+}
+
 fn ladder(args: &Args, rep: &mut Report) {
     // (the reduced workload run under the interpreter keeps a short ladder)
     let reduced = args.extra.iter().any(|e| e == "norandom");
@@ -172,6 +309,10 @@ fn ladder(args: &Args, rep: &mut Report) {
 
 pub fn run(args: &Args, rep: &mut Report) {
     ladder(args, rep);
+    if rep.full() {
+        return;
+    }
+    run_family(args, rep);
     if rep.full() {
         return;
     }
@@ -258,6 +399,16 @@ pub fn run(args: &Args, rep: &mut Report) {
 }
 
 pub fn replay(case: &serde_json::Value, rep: &mut Report) {
+    if let Some(runs) = case["runs"].as_array() {
+        let desc: Vec<(u8, usize)> = runs.iter().map(|p| (p[0].as_u64().unwrap_or(0) as u8, p[1].as_u64().unwrap_or(0) as usize)).collect();
+        rep.evaluations += 1;
+        match guarded(|| check_runs(&desc)) {
+            Ok(Ok(())) => {}
+            Ok(Err(msg)) => rep.violation("set_semantics", msg, case.clone(), None),
+            Err(p) => rep.violation("panic", format!("panic on run-structured operands {desc:?}: {p}"), case.clone(), None),
+        }
+        return;
+    }
     if let (Some(shape), Some(len)) = (case["ladder_shape"].as_u64(), case["ladder_len"].as_u64()) {
         rep.evaluations += 1;
         match guarded(|| check_ladder(shape, len as usize)) {
